@@ -126,6 +126,12 @@ def sext(w, x):
         return ("zext", w, x[2])  # the sign bit of a zero-extended value is 0
     if x[0] == "ite":
         return ite(x[1], sext(w, x[2]), sext(w, x[3]))
+    # sext(trunc_n(t)) == t when t already is the sign-extension of its low n bits: an arithmetic shift right
+    # by at least width - n
+    if x[0] == "trunc" and width(x[2]) == w:
+        t = x[2]
+        if isinstance(t, tuple) and t[0] == "sh" and t[1] == "ashr" and is_k(t[4][2]) and t[4][2][2] >= w - wx:
+            return t
     return ("sext", w, x)
 
 
@@ -355,6 +361,17 @@ def cmp(opn, w, a, b):
                         return TRUE
                     if (opn == "slt" and kv >= hi) or (opn == "sle" and kv > hi):
                         return FALSE
+    # equality of an extension with a constant is decided on the narrow value (or is impossible)
+    if opn in ("eq", "ne"):
+        for k_side, e_side in ((a, b), (b, a)):
+            if is_k(k_side) and isinstance(e_side, tuple) and e_side[0] in ("zext", "sext") and len(e_side) == 3:
+                inner = e_side[2]
+                wn = width(inner)
+                kn = K(wn, k_side[2])
+                back = sext(w, kn) if e_side[0] == "sext" else zext(w, kn)
+                if back == k_side:
+                    return cmp(opn, wn, kn, inner)
+                return FALSE if opn == "eq" else TRUE
     # comparisons of two zero-extensions of same-width values compare the narrow values
     if a[0] == "zext" and b[0] == "zext" and width(a[2]) == width(b[2]) and opn in ("eq", "ne", "ult", "ule"):
         return cmp(opn, width(a[2]), a[2], b[2])
